@@ -146,6 +146,12 @@ class Sender(object):
         got = []
         ctr.route = TxRouteItem(eid_pattern=re.compile('.*'), next_nodeid=DST_NODE, cl_type='cap')
         ctr.sender = lambda data: got.append(bytes(data))
+        # what goes in: BTSD of every block, and the block numbers the association's type list selects
+        ctr.reload()
+        self.last_plain = {int(b.block_num): bytes(b.getfieldval('btsd') or b'') for b in ctr.bundle.blocks
+                           if b.block_num is not None}
+        self.last_selected = sorted(int(b.block_num) for b in ctr.bundle.blocks
+                                    if b.block_num is not None and int(b.type_code) in self.tgt_types)
         self.agent.send_bundle(ctr)
         return got[0] if got else None
 
@@ -758,7 +764,7 @@ def gen_payload(rng, tier):
     return bytes([rng.getrandbits(8)]) * n
 
 
-def gen_container(rng, tier, payload=None, extra=None):
+def gen_container(rng, tier, payload=None, extra=None, kinds=None):
     ''' A random bundle (scapy container) from node SRC_NODE to an endpoint of DST_NODE. '''
     flags = 0
     for bit in (0x40000, 0x20000, 0x10000, 0x4000, 0x40, 0x20, 0x4):
@@ -779,8 +785,8 @@ def gen_container(rng, tier, payload=None, extra=None):
         nextnum[0] += 1
         return nextnum[0]
     nextra = rng.randrange(0, 3) if extra is None else extra
-    for _ in range(nextra):
-        k = rng.randrange(4)
+    klist = list(kinds) if kinds is not None else [rng.randrange(4) for _ in range(nextra)]
+    for k in klist:
         crc = rng.choice([0, 1, 2])
         if k == 0:
             blocks.append(CanonicalBlock(type_code=7, block_num=num(), crc_type=crc) / BundleAgeBlock(age=rng.randrange(0, 100000)))
@@ -1260,6 +1266,77 @@ def has_run(hay, needle, n=8):
     return any(needle[i:i + n] in hay for i in range(len(needle) - n + 1))
 
 
+def alter_btsd(blocks, num):
+    ''' Copy of the block list with one bit of block `num`'s BTSD flipped (an octet appended when empty). '''
+    out = []
+    for b in blocks:
+        if b['num'] == num:
+            raw = bytes.fromhex(b['btsd'])
+            raw = (bytes([raw[0] ^ 1]) + raw[1:]) if raw else b'\x00'
+            b = dict(b, btsd=raw.hex())
+        out.append(b)
+    return out
+
+
+def alter_each_target(chk, prop, keys, ib, data, targets, accept, replay, label):
+    ''' Alter the data of each target of the bundle's security block in turn (the block CRC is recomputed,
+    everything else is left intact): every such bundle must be rejected as a security failure. '''
+    if assemble(ib, ib.blocks) != data:
+        chk.count('%s:reassembly-not-identical(skipped target alteration)' % label)
+        return
+    for pos, num in enumerate(targets):
+        v = assemble(ib, alter_btsd(ib.blocks, num))
+        out = Receiver(keys, accept=accept).feed(v)
+        where = 'only' if len(targets) == 1 else ('first' if pos == 0 else ('last' if pos == len(targets) - 1 else 'middle'))
+        chk.count('%s:target-altered:%s-of-%d' % (label, where, len(targets)))
+        chk.case({'alt': v.hex()}, nontrivial=True)
+        r = dict(replay, data=v.hex(), original=data.hex(), altered_target=num, position=where,
+                 targets=list(targets), expected='must-fail', observed=out.summary())
+        if out.delivered:
+            chk.violation('%s:altered-target-delivered' % prop,
+                          'data of target %d (%s of %d targets) altered, the other targets intact: delivered' % (num, where, len(targets)), r)
+        elif not out.sec_marked():
+            chk.violation('%s:altered-target-not-marked-security' % prop, 'altered target rejected without a security reason', r)
+
+
+def to_cbor2(v):
+    ''' value of the independent decoder → value cbor2 can encode '''
+    if isinstance(v, T):
+        return bytes(v).decode('utf8')
+    if isinstance(v, M):
+        return {to_cbor2(k): to_cbor2(x) for k, x in v}
+    if isinstance(v, list):
+        return [to_cbor2(x) for x in v]
+    return v
+
+
+def recraft_from_impl(sec, blocks, structs, key, conf, plains):
+    ''' Redo the cryptography of a harness-made security block over the MAC / Enc structures the
+    *implementation* computed for it (captured), so that the block is valid for the implementation whatever its
+    AAD construction is. Returns (security block, blocks) or None. '''
+    from cryptography.hazmat.primitives.ciphers.aead import AESGCM
+    a = IAsb(bytes.fromhex(sec['btsd']))
+    want = 'enc' if conf else 'mac'
+    st = [x for x in structs if x['kind'] == want]
+    if len(st) != len(a.targets):
+        return None
+    blocks = [dict(b) for b in blocks]
+    results = []
+    for (t, rl, rec) in zip(a.targets, a.results, st):
+        rid, val = rl[0]
+        msg = to_cbor2(rd_all(val))
+        if conf:
+            iv = msg[1][5]
+            for b in blocks:
+                if b['num'] == t:
+                    b['btsd'] = AESGCM(key).encrypt(iv, plains[t], bytes.fromhex(rec['out'])).hex()
+        else:
+            msg[3] = _hmac.new(key, bytes.fromhex(rec['out']), hashlib.sha256).digest()
+        results.append([(rid, cbor2.dumps(msg))])
+    params = [(p[0], to_cbor2(p[1])) for p in a.params] if a.flags & 1 else None
+    return dict(sec, btsd=build_asb(a.targets, results, ctx_id=a.ctx_id, source=a.source, params=params).hex()), blocks
+
+
 def campaign(chk, prop, conf):
     ''' Shared search of C03 (conf=False) and C16 (conf=True). '''
     rng = chk.rng
@@ -1271,15 +1348,20 @@ def campaign(chk, prop, conf):
     base = dict(keys=keyhex)
     t_start = chk.elapsed()
 
-    # ---- 1. the agent's own security blocks: correspondence + unmodified bundle verifies + key faults
+    # ---- 1. the agent's own security blocks, applied through the security policy (one association whose
+    #         type list selects 1, 2 or 3 blocks): correspondence, what is on the wire, recovery, key faults,
+    #         alteration of each target in turn
     n_corr = 6 if quick else 60
     flip_pool = []
+    policies = [((1,), None), ((1, 7), [0]), ((1, 7, 10), [0, 1]), ((1,), None), ((1, 6, 7), [2, 0]), ((1, 10), [1, 3])]
     for mode in modes:
         snd = Sender(keys, mode, rng=rng)
         for i in range(n_corr):
             accept = bool(i % 2)
+            tgt_types, kinds = policies[i % len(policies)]
+            snd.tgt_types = list(tgt_types)
             payload = b'' if i == 0 else (None if i > 1 else b'Never gonna give you up, never gonna let you down')
-            ctr, payload = gen_container(rng, chk.tier, payload=payload)
+            ctr, payload = gen_container(rng, chk.tier, payload=payload, kinds=kinds)
             CAPTURE.active = True
             data = snd.send(ctr)
             a1, s1 = CAPTURE.take()
@@ -1288,40 +1370,68 @@ def campaign(chk, prop, conf):
             a2, s2 = CAPTURE.take()
             CAPTURE.active = False
             check_captures(chk, a1 + a2, s1 + s2, '%s own block' % mode)
-            replay = dict(base, mode=mode, accept=accept, data=data.hex(), payload=payload.hex(), observed=out.summary())
+            selected, plain = snd.last_selected, snd.last_plain
+            replay = dict(base, mode=mode, accept=accept, data=data.hex(), payload=payload.hex(), observed=out.summary(),
+                          policy_types=list(tgt_types), selected_blocks=selected,
+                          plaintexts={str(k): v.hex() for k, v in plain.items()})
             chk.count('%s:own-bundles' % mode)
+            chk.count('%s:policy-selects-%d-blocks' % (mode, len(selected)))
             chk.count('payload-len:%d' % len(payload))
             chk.case({'mode': mode, 'data': data.hex()}, nontrivial=True, sample=(i == 1))
             ib = IBundle(data)
-            nsec = len([b for b in ib.blocks if b['type'] in (11, 12)])
-            if nsec != 1 or not a1:
-                chk.violation('%s:source-did-not-apply-security-block' % prop, 'sender configured for %s produced %d security blocks' % (mode, nsec), replay)
+            secs = [b for b in ib.blocks if b['type'] in (11, 12)]
+            if len(secs) != 1 or not a1:
+                chk.violation('%s:source-did-not-apply-security-block' % prop, 'sender configured for %s produced %d security blocks' % (mode, len(secs)), replay)
                 continue
+            # --- what the source put on the wire (independent decode)
+            try:
+                asb = IAsb(bytes.fromhex(secs[0]['btsd']))
+            except Undec as err:
+                chk.violation('%s:source-security-block-undecodable' % prop, 'security block of the source does not decode: %s' % err, replay)
+                continue
+            wire_ok = True
+            if list(asb.targets) != selected:
+                wire_ok = False
+                chk.violation('%s:policy-targets-mismatch' % prop,
+                              'the security block lists targets %s, the policy selects blocks %s' % (asb.targets, selected), replay)
+            if len(asb.results) != len(asb.targets):
+                wire_ok = False
+                chk.violation('%s:policy-results-mismatch' % prop, 'one result list per target expected', replay)
+            for n in selected:
+                blk = ib.block(n)
+                wire = bytes.fromhex(blk['btsd']) if blk else None
+                if conf:
+                    if wire is None or wire == plain[n] or (has_run(wire, plain[n]) and len(set(plain[n])) > 4):
+                        wire_ok = False
+                        chk.violation('C16:plaintext-on-wire', 'block %d selected by the confidentiality policy carries its plaintext on the wire' % n, replay)
+                    elif len(wire) != len(plain[n]) + 16:
+                        chk.count('%s:ciphertext-length-unexpected' % mode)
+                elif wire != plain[n]:
+                    wire_ok = False
+                    chk.violation('C03:payload-changed', 'integrity-protected block %d changed by the source' % n, replay)
+            if conf and has_run(data, payload) and len(set(payload)) > 4:
+                wire_ok = False
+                chk.violation('C16:plaintext-run-on-wire', 'an 8-octet run of the plaintext appears in the encoded bundle', replay)
+            # --- the receiver holding the key
             if not out.delivered:
                 chk.violation('%s:unmodified-bundle-rejected' % prop, 'unmodified secured bundle not delivered at a receiver holding the key', replay)
                 continue
-            wire = bytes.fromhex(ib.block(1)['btsd'])
-            if conf:
-                if wire == payload and payload:
-                    chk.violation('C16:plaintext-on-wire', 'target BTSD on the wire equals the plaintext', replay)
-                if has_run(data, payload) and len(set(payload)) > 4:
-                    chk.violation('C16:plaintext-run-on-wire', 'an 8-octet run of the plaintext appears in the encoded bundle', replay)
-                if len(wire) != len(payload) + 16:
-                    chk.count('%s:ciphertext-length-unexpected' % mode)
-                got = [b for b in out.delivered_blocks if b[1] == 1][0][2]
-                if accept and got != payload:
-                    chk.violation('C16:plaintext-not-recovered', 'accepting receiver did not recover the exact plaintext', replay)
-                if accept and [b for b in out.delivered_blocks if b[0] == 12]:
-                    chk.violation('C16:accepted-bcb-not-removed', 'BCB still present after acceptance', replay)
-                if not accept:
-                    chk.count('%s:verifier-role-delivers-ciphertext(accept_after_verify=False)' % mode)
-                    if got != wire:
-                        chk.violation('C16:target-changed-without-acceptance', 'target rewritten although acceptance is off', replay)
-            else:
-                got = [b for b in out.delivered_blocks if b[1] == 1][0][2]
-                if got != payload or wire != payload:
-                    chk.violation('C03:payload-changed', 'integrity-protected payload changed', replay)
-            # key faults
+            if not wire_ok:
+                continue
+            got = {b[1]: b[2] for b in out.delivered_blocks}
+            for n in selected:
+                wire = bytes.fromhex(ib.block(n)['btsd'])
+                if conf and accept and got.get(n) != plain[n]:
+                    chk.violation('C16:plaintext-not-recovered', 'accepting receiver did not recover the exact plaintext of block %d' % n, replay)
+                if conf and not accept and got.get(n) != wire:
+                    chk.violation('C16:target-changed-without-acceptance', 'target rewritten although acceptance is off', replay)
+                if not conf and got.get(n) != plain[n]:
+                    chk.violation('C03:payload-changed', 'integrity-protected block %d changed' % n, replay)
+            if conf and accept and [b for b in out.delivered_blocks if b[0] == 12]:
+                chk.violation('C16:accepted-bcb-not-removed', 'BCB still present after acceptance', replay)
+            if conf and not accept:
+                chk.count('%s:verifier-role-delivers-ciphertext(accept_after_verify=False)' % mode)
+            # --- key faults
             for variant in ('wrong', 'missing'):
                 o2 = Receiver(keys_from_hex(keyhex, variant), accept=accept).feed(data)
                 r2 = dict(replay, receiver_keys=variant, observed=o2.summary())
@@ -1332,8 +1442,10 @@ def campaign(chk, prop, conf):
                     chk.violation('%s:key-failure-not-marked-security' % prop, 'key failure not marked as a security failure', r2)
                 elif wants_deletion_report(ib) and not any(r in SEC_REASONS for r in o2.reports):
                     chk.violation('%s:failure-not-reported' % prop, 'no status report with a security reason', r2)
-            if len(data) <= (280 if quick else 420):
-                flip_pool.append((mode, accept, data))
+            # --- each target altered in turn (first / middle / last position), the others intact
+            alter_each_target(chk, prop, keys, ib, data, asb.targets, accept, replay, mode)
+            if len(data) <= (300 if quick else 420):
+                flip_pool.append((mode, accept, data, len(selected)))
 
     # ---- 2. harness-made blocks with other AAD scopes (MAC / AEAD input from the Lean model)
     crafted = []
@@ -1365,6 +1477,47 @@ def campaign(chk, prop, conf):
         replay = dict(base, mode='crafted', scope=scope, accept=accept, data=data.hex(), observed=out.summary())
         chk.count('crafted:scope=%s' % json_scope(scope))
         chk.case({'scope': scope, 'data': data.hex()}, nontrivial=True)
+        # --- whatever the implementation's AAD construction is: a block that is valid *for it* must stop
+        #     verifying when data covered by a scope entry with the BTSD flag is altered (and keep verifying when an
+        #     uncovered block is altered). The cryptography is redone over the structures the implementation computed.
+        covered_btsd = [k for k, f in scope if k > 0 and f & 2]
+        uncovered = [n for n in ext if all(k != n for k, f in scope)]
+        if covered_btsd or uncovered:
+            plains = {1: payload}
+            rec = recraft_from_impl(sec, blocks, s2, bytes.fromhex(keyhex['enc' if conf else 'mac']), conf, plains)
+            if rec is None:
+                chk.count('crafted:impl-view-recraft-impossible')
+            else:
+                sec2, blocks2 = rec
+                all2 = insert_before_payload(blocks2, [sec2])
+                data2 = assemble(ib, all2)
+                o2 = Receiver(keys, accept=accept).feed(data2)
+                r2 = dict(replay, data=data2.hex(), observed=o2.summary(), crafted_over='implementation structures')
+                if not o2.delivered:
+                    chk.violation('%s:unmodified-bundle-rejected' % prop,
+                                  'a security block made over the implementation\'s own MAC/Enc structure does not verify', r2)
+                else:
+                    for n in covered_btsd:
+                        v = assemble(ib, alter_btsd(all2, n))
+                        o3 = Receiver(keys, accept=accept).feed(v)
+                        chk.count('crafted:scope-btsd-entry-altered')
+                        chk.case({'alt': v.hex()}, nontrivial=True)
+                        r3 = dict(r2, data=v.hex(), original=data2.hex(), altered_block=n, expected='must-fail', observed=o3.summary())
+                        if o3.delivered:
+                            chk.violation('%s:covered-alteration-delivered' % prop,
+                                          'BTSD of block %d is in the AAD scope (flags %d) and was altered: delivered' % (n, dict(scope)[n]), r3)
+                        elif not o3.sec_marked():
+                            chk.violation('%s:failure-not-marked-security' % prop, 'covered alteration rejected without a security reason', r3)
+                    for n in uncovered:
+                        if [b for b in ib.blocks if b['num'] == n][0]['type'] in (6, 7, 10):
+                            continue      # blocks the agent itself interprets: keep this monitor to opaque blocks
+                        v = assemble(ib, alter_btsd(all2, n))
+                        o3 = Receiver(keys, accept=accept).feed(v)
+                        chk.count('crafted:uncovered-block-altered')
+                        if not o3.delivered:
+                            chk.violation('%s:uncovered-alteration-rejected' % prop,
+                                          'a block outside the AAD scope was altered and the bundle rejected',
+                                          dict(r2, data=v.hex(), original=data2.hex(), altered_block=n, expected='must-pass', observed=o3.summary()))
         if not out.delivered:
             # the block was built from the model's AAD / COSE structure: the real verifier disagrees with the model
             chk.corr_break('security block built from the model AAD does not verify on the implementation', replay)
@@ -1378,8 +1531,8 @@ def campaign(chk, prop, conf):
     # ---- 3. every single-bit flip through the real receiver
     n_flip = (3, 5) if quick else (40, 60)
     by_mode = {}
-    for item in flip_pool:
-        by_mode.setdefault(item[0], []).append(item)
+    for item in sorted(flip_pool, key=lambda it: -it[3]):
+        by_mode.setdefault(item[0], []).append(item[:3])
     inter = [x for grp in zip(*[by_mode[m] for m in sorted(by_mode)]) for x in grp] if by_mode else []
     todo = inter[:n_flip[0]] + crafted[:n_flip[1]]
     if not quick:
